@@ -137,11 +137,15 @@ def make_validator(name):
             if not cfg.x < cfg.y:
                 raise ValueError("x must be less than y")
 
+    def x_not_3(cfg):
+        if "x" in cfg and cfg.x == 3 and not isinstance(cfg.x, bool):
+            raise ValueError("x must not be 3")
+
     def needs_x(cfg):
         if "x" not in cfg or cfg.x is None:
             raise ValueError("x is needed")
 
-    return {"always_ok": always_ok, "always_fail": always_fail, "x_lt_y": x_lt_y, "needs_x": needs_x}[name]
+    return {"always_ok": always_ok, "always_fail": always_fail, "x_lt_y": x_lt_y, "needs_x": needs_x, "x_not_3": x_not_3}[name]
 
 
 # ----------------------------------------------------------------------------- projection
@@ -296,10 +300,11 @@ class World:
             elif op == "Validate":
                 cfg.validate()
             elif op == "COp":
-                target = getattr(self._walk(cfg, seq(ev["p"])), ev["k"])
+                owner = self._walk(cfg, seq(ev["p"]))
+                target = getattr(owner, ev["k"])
                 if target is None:
                     raise NoContainer()
-                self._container_op(target, ev["o"])
+                self._container_op(target, ev["o"], owner)
             else:
                 raise RuntimeError("unknown event %r" % (op,))
         except Exception as exc:  # noqa
@@ -320,7 +325,7 @@ class World:
         res["repl_other"] = sorted([[m] + list(p) for m, p in repl if m != n])
         return res
 
-    def _container_op(self, target, o):
+    def _container_op(self, target, o, owner=None):
         cinco = self.cinco
         m = o["m"]
         val = lambda v: value_to_py(cinco, v, None, self.root)  # noqa
@@ -338,6 +343,12 @@ class World:
             target += iter([val(v) for v in seq(o["vs"])])
         elif m == "setslice_all":
             target[:] = tuple(val(v) for v in seq(o["vs"]))
+        elif m == "slice_from":
+            src = getattr(owner, o["src"])
+            target[:] = src if src is not None else []
+        elif m == "extend_from":
+            src = getattr(owner, o["src"])
+            target.extend(src if src is not None else [])
         elif m == "pop" and isinstance(target, list):
             target.pop()
         elif m == "pop":
